@@ -147,7 +147,11 @@ class TocFetcher:
             self.cf.send_packet(pk, expected_reply=(CMD_TOC_INFO,))
 
     def _remove_callbacks(self):
-        self.cf.remove_port_callback(self.port, self._new_packet_cb)
+        try:
+            self.cf.remove_port_callback(self.port, self._new_packet_cb)
+        except ValueError:
+            # Already removed from another thread (finished and disconnected at the same time)
+            pass
         try:
             self.cf.disconnected.remove_callback(self._disconnected_cb)
         except ValueError:
